@@ -13,9 +13,16 @@ func init() {
 					{Fn: "Harness_C10_placement", Tiers: "both", Reach: []string{"end"}, Bounds: "11 placements of a //lint:ignore comment (above / at the end of a statement, inside longer comment blocks, doc comment, declaration block, above an if) x the problem on every line of the file; parsed by the real go/parser, attached by ast.NewCommentMap via lint.ParseDirectives, serialized by the runner"},
 					{Fn: "Harness_C10_pair", Tiers: "both", Reach: []string{"end"}, Bounds: "2 problems (same or different line, same or different check) x 1-2 directives in either order (6 lists, reason absent/present)"},
 				},
+			}, {
+				PkgPath: "honnef.co/go/tools/unused", PkgDir: "unused", PkgName: "unused",
+				Files: []string{"u1000.go", "../C17/ugen.go", "../C17/source.go"},
+				Nop:   []string{"honnef.co/go/tools/unused.trace"},
+				Entries: []Entry{
+					{Fn: "Harness_C10_u1000_ignore", Tiers: "both", Reach: []string{"end"}, Bounds: "23-declaration skeleton; //lint:ignore U1000 above one of 5 declarations (3 functions, var, const) x 20 reference forms inside f1; compared with the same package in which the exported function refers to the object instead"},
+				},
 			}},
 			Assumptions: []string{
-				"attachment of comments to syntax nodes is covered for the 11 placements of Harness_C10_placement only; //line-remapped positions and U1000's own handling of ignores inside its graph are outside the claim",
+				"attachment of comments to syntax nodes is covered for the 11 placements of Harness_C10_placement only; //line-remapped positions are outside the claim; U1000's own handling of ignores is covered for functions, variables and constants of the generated skeleton (types, whose fields and methods are used as well, are not)",
 				"a whitespace-only reason (trailing space) is outside the claim (the property does not say whether it counts as a reason)",
 				"the useless-directive clause is asserted only for lists of exact names (whether a glob 'names' an enabled check is not specified)",
 			},
